@@ -8,14 +8,16 @@
 (* files in every orientation / header / file type / sheet variant.        *)
 (***************************************************************************)
 EXTENDS Integers, Sequences, FiniteSets, TLC, Json
-CONSTANTS Emit, Part          \* Part: "defs" | "files"
+CONSTANTS Emit, Part          \* Part: "defs" | "files" | "deep" (thorough tier: full cross products of valid pools)
 INSTANCE System
 
 VARIABLES cfg, res, phase
 vars == <<cfg, res, phase>>
 
 Letters == {"t", "r", "e"}
-ProcLists == {<<"sysenv", "A", "B">>, <<"sysenv", "B", "A">>, <<"sysenv">>, <<"A", "sysenv">>, <<"A", "B">>, <<"sysenv", "use phase", "A">>}
+\* (first names that are NOT the system environment include look-alikes: a fragment, another case, a longer name)
+ProcLists == {<<"sysenv", "A", "B">>, <<"sysenv", "B", "A">>, <<"sysenv">>, <<"A", "sysenv">>, <<"A", "B">>, <<"sysenv", "use phase", "A">>,
+              <<"env", "A", "B">>, <<"Sysenv", "A">>, <<"sysenv2", "A">>, <<"s", "A", "B">>}
 FlowPool == {[from |-> "sysenv", to |-> "A", dims |-> <<"t", "r">>, override |-> ""],
              [from |-> "A", to |-> "B", dims |-> <<"r", "t", "e">>, override |-> ""],
              [from |-> "A", to |-> "B", dims |-> <<"e">>, override |-> "second A to B"],
@@ -40,6 +42,8 @@ TwoStocks == {<< [name |-> "in use", cls |-> "SimpleFlowDrivenStock", lm |-> "",
                  [name |-> "landfill", cls |-> "SimpleFlowDrivenStock", lm |-> "", solver |-> "manual", tl |-> "t", proc |-> p2, dims |-> <<"t">>] >> :
                  p1 \in {"", "A", "B"}, p2 \in {"", "A", "B"}}
 StockLists == {<<>>} \cup {<<s>> : s \in StockPool} \cup TwoStocks
+ParamListsSeq == << <<>>, << [name |-> "alpha", dims |-> <<"r", "t">>] >>,
+                   << [name |-> "alpha", dims |-> <<"t">>], [name |-> "beta", dims |-> <<"e", "r">>] >> >>
 ParamLists == {<<>>, << [name |-> "alpha", dims |-> <<"r", "t">>] >>,
                << [name |-> "alpha", dims |-> <<"t">>], [name |-> "beta", dims |-> <<"e", "r">>] >>,
                << [name |-> "gamma", dims |-> <<"z">>] >>}
@@ -50,6 +54,16 @@ DefConfigs ==
     IN       {[base EXCEPT !.procs = p, !.flows = fl, !.naming = n] : p \in ProcLists, fl \in FlowLists, n \in {"arrow", "no_spaces", "ids"}}
         \cup {[base EXCEPT !.procs = p, !.stocks = st] : p \in {<<"sysenv", "A", "B">>, <<"sysenv", "B", "A">>, <<"A", "B">>}, st \in StockLists}
         \cup {[base EXCEPT !.params = pa, !.flows = fl] : pa \in ParamLists, fl \in {<<>>} \cup {<<f>> : f \in FlowPool}}
+
+\* thorough tier: instead of varying one aspect at a time, the full cross product of process lists x flow lists of up to THREE
+\* flows (valid templates, overrides incl. the empty one) x naming functions x two-stock lists x parameter lists
+ValidFlows == {f \in FlowPool : f.to # "X" /\ "z" \notin {f.dims[i] : i \in DOMAIN f.dims}}
+DeepFlowLists == {fl \in {<<f, g>> : f \in ValidFlows, g \in ValidFlows} \cup {<<f, g, h>> : f \in ValidFlows, g \in ValidFlows, h \in ValidFlows} :
+                     \A i, j \in DOMAIN fl : i # j => fl[i] # fl[j]}
+DeepConfigs ==
+    {[letters |-> Letters, procs |-> p, flows |-> fl, stocks |-> st, params |-> pa, naming |-> n] :
+        p \in {<<"sysenv", "A", "B">>, <<"sysenv", "use phase", "A">>, <<"A", "sysenv", "B">>}, fl \in DeepFlowLists,
+        st \in {<<>>} \cup TwoStocks, pa \in {ParamListsSeq[1], ParamListsSeq[3]}, n \in {"arrow", "no_spaces", "ids"}}
 
 \* dimension files
 ItemLists == {<<2000, 2010, 2020>>, <<7>>, <<3, 1, 2>>}
@@ -65,7 +79,8 @@ FileConfigs ==
         sh \in {"default", "named", "second"}, td \in BOOLEAN}
 
 Init == /\ phase = "cfg" /\ res = [pending |-> TRUE]
-        /\ cfg \in (IF Part = "defs" THEN {[op |-> "build", def |-> d] : d \in DefConfigs}
+        /\ cfg \in (IF Part = "deep" THEN {[op |-> "build", def |-> d] : d \in DeepConfigs}
+                    ELSE IF Part = "defs" THEN {[op |-> "build", def |-> d] : d \in DefConfigs}
                                      ELSE {[op |-> "dimfile", file |-> f] : f \in {g \in FileConfigs : ~(g.ftype = "csv" /\ g.sheet # "default")}})
 Step == /\ phase = "cfg" /\ phase' = "done" /\ UNCHANGED cfg
         /\ res' = IF cfg.op = "build" THEN Build(cfg.def)
